@@ -143,6 +143,34 @@ def skeleton(beh: list[tuple[str, int, dict]], nops: int) -> tuple[list[tuple], 
     return steps, {"ops": ops, "fault": fault, "stopped": stopped}
 
 
+def skeleton_stateful(beh: list[tuple[str, int, dict]]) -> tuple[list[tuple], dict]:
+    """Behaviour of spec/Stateful.tla -> partial skeleton: only the consumer's steps, the thread's exit and external stops are
+    forced; what the state-machine thread enqueues in between is left to Hypothesis (the model abstracts it nondeterministically)."""
+    steps: list[tuple] = []
+    info = {"bad": False, "stopped": False, "ctrlc": False}
+    for action, _, st in beh:
+        if action == "C_Get":
+            steps.append(("c", "got"))
+        elif action == "C_Timeout":
+            steps.append(("c", "empty"))
+        elif action == "C_Alive":
+            steps.append(("c", "alive"))
+        elif action == "C_CtrlC":
+            steps.append(("c", "ctrlc"))
+            info["ctrlc"] = True
+        elif action == "T_Exit":
+            steps.append(("t", "exit"))
+        elif action == "Env_Stop":
+            steps.append(("env", "stop"))
+            info["stopped"] = True
+        if st.get("problem"):
+            info["bad"] = True
+    # consumer gets in the model are tied to the model's queue content; the real queue content differs (Hypothesis decides), so
+    # only the gets BEFORE the thread's exit that the model needs for the race are kept as "at least this many" by dropping them:
+    steps = [s for s in steps if s != ("c", "got")]
+    return steps, info
+
+
 class Scheduler(Recorder):
     """Recorder that additionally forces a skeleton schedule."""
 
@@ -159,6 +187,10 @@ class Scheduler(Recorder):
         self.free = False
         self.main = threading.get_ident()
         self.followed = 0
+
+    def head(self):
+        with self.cv:
+            return self.steps[self.idx] if (not self.free and self.idx < len(self.steps)) else None
 
     # ---- gate -------------------------------------------------------------------------------------------------
     def _role(self) -> Any:
@@ -228,6 +260,14 @@ class Scheduler(Recorder):
             self.gate("took:%d" % op)
         elif name == "worker.exit":
             self.gate("exit")
+        elif name == "stateful.consumer.empty":
+            self.gate("empty")
+        elif name == "stateful.consumer.alive":
+            self.gate("alive")
+        elif name == "stateful.thread.exit":
+            self.bind.setdefault(threading.get_ident(), "t")
+            self.bound_roles.add("t")
+            self.gate("exit")
         super().point(name, data)
 
     def make_queue(self, name: str):
@@ -235,10 +275,19 @@ class Scheduler(Recorder):
         sched = self
         cls = type(base)
 
+        stateful = name == "stateful"
+
         class GatedQueue(cls):  # type: ignore[misc,valid-type]
             def put(self, item, block=True, timeout=None):
-                if threading.get_ident() != sched.main:
+                if threading.get_ident() != sched.main and not stateful:
                     sched.gate("put:" + KIND.get(type(item).__name__, type(item).__name__))
                 return super().put(item, block, timeout)
+
+            def get(self, block=True, timeout=None):
+                if stateful and threading.get_ident() == sched.main and sched.head() == ("c", "ctrlc"):
+                    sched.gate("ctrlc")
+                    sched.emit({"e": "CTRLC"})
+                    raise KeyboardInterrupt
+                return super().get(block, timeout)
 
         return GatedQueue()
